@@ -235,7 +235,65 @@ def check_pwl_objective():
                                   got[0], 'expected': want})
 
 
+def check_pwl_constraints():
+    """piecewise-linear inequalities with known optimal values (the epigraph
+    expansion constraint._aslinearineq), and the constraint is left alone"""
+    from cvxopt import solvers
+    from cvxopt.modeling import max as mmax, sum as msum
+    solvers.options['show_progress'] = False
+    x = variable(1, 'x')
+    y = variable(3, 'y')
+    u = variable(3, 'u')
+    v = matrix([1.0, 2.0, 3.0])
+    one = matrix(1.0, (1, 3))
+    cases = [
+        ('max(x, 2x-1) <= 1', lambda: op(-x, [mmax(x, 2 * x - 1) <= 1]),
+         -1.0),
+        ('y + max(u) <= 0, u >= v', lambda: op(-one * y, [
+            y + mmax(u) <= 0, u >= v, y >= -10]), 9.0),
+        ('x + max(u) <= 0, u >= v', lambda: op(-x, [x + mmax(u) <= 0,
+                                                    u >= v]), 3.0),
+        ('sum(max(y, x)) <= 9, y == v', lambda: op(-x, [
+            msum(mmax(y, x)) <= 9, y == v]), -3.0),
+        ('max(x, 0) + max(2x, 1) <= 4', lambda: op(-x, [
+            mmax(x, 0) + mmax(2 * x, 1) <= 4]), -4.0 / 3),
+        ('max(y, u, 0) <= v (vector)', lambda: op(-one * y - one * u, [
+            mmax(y, u, 0) <= v]), -12.0),
+        ('x + max(y) + sum(max(u, 0)) <= 1, y >= v, u >= -1',
+         lambda: op(-x, [x + mmax(y) + msum(mmax(u, 0)) <= 1, y >= v,
+                         u >= -1]), 2.0)]
+    for name, mk, want in cases:
+        for fmt in ('dense', 'sparse'):
+            p = mk()
+            before = [(c, sorted(id(t) for t in c.variables()))
+                      for c in p.constraints()]
+            try:
+                p.solve(fmt)
+            except Exception as e:
+                fail('assembly', {'case': 'pwl constraint ' + name,
+                                  'format': fmt, 'raised': repr(e)})
+                continue
+            got = p.objective.value()
+            if p.status != 'optimal' or got is None or abs(
+                    got[0] - want) > 1e-5:
+                fail('assembly', {'case': 'pwl constraint ' + name,
+                                  'format': fmt, 'status': p.status,
+                                  'optimal value': None if got is None else
+                                  got[0], 'expected': want})
+            for c, vs in before:
+                if sorted(id(t) for t in c.variables()) != vs:
+                    fail('assembly', {'case': 'pwl constraint ' + name,
+                                      'format': fmt, 'the constraint itself '
+                                      'was modified': 'its variables were %d, '
+                                      'are %d' % (len(vs), len(
+                                          c.variables()))})
+
+
 check_assembly()
+try:
+    check_pwl_constraints()
+except Exception as e:
+    fail('assembly', {'pwl constraint exception': repr(e)})
 try:
     check_pwl_objective()
 except Exception as e:
